@@ -141,3 +141,84 @@ Proof.
   reflexivity.
 Qed.
 Print Assumptions C19_example.
+
+(** * Tie to the source by translation (utils/toposort.py)
+
+    [Gen/ToposortGen.v] is regenerated on every run (translator/pyfun.py, translator/toposort_gen.py): dicts are
+    association lists in insertion order, the successor sets come with their recorded iteration order, the order in
+    which a set built by the code is iterated is the section parameter [ord] (any function; a permutation for the
+    well-formedness theorems).  The generated functions EQUAL the model: unconditionally for Kahn, and for the
+    backtracking enumeration for every [ord] (results in the same order, errors included). *)
+
+From SR Require Import Gen.ToposortGen Proofs.ToposortGenProofs.
+
+Theorem C19_gen_toposort_eq :
+  forall g : graph, cres (G.gen_toposort Nat.eqb g) = toposort g.
+Proof. exact @gen_toposort_eq. Qed.
+Print Assumptions C19_gen_toposort_eq.
+
+Theorem C19_gen_toposort_all_eq :
+  forall (ord : list node -> list node) (g : graph),
+       toposort_all_with ord g <> TOutOfFuel ->
+       cres (G.gen_toposort_all Nat.eqb ord g) = toposort_all_with ord g.
+Proof. exact @gen_toposort_all_eq. Qed.
+Print Assumptions C19_gen_toposort_all_eq.
+
+Theorem C19_gen_toposort_all_wf :
+  forall (ord : list node -> list node) (g : graph),
+       wf g -> set_order ord -> cres (G.gen_toposort_all Nat.eqb ord g) = toposort_all_with ord g.
+Proof. exact @gen_toposort_all_wf. Qed.
+Print Assumptions C19_gen_toposort_all_wf.
+
+Theorem C19_gen_toposort_all_total :
+  forall (ord : list node -> list node) (g : graph),
+       wf g ->
+       set_order ord -> exists R : list (list nat), G.gen_toposort_all Nat.eqb ord g = G.Ok R.
+Proof. exact @gen_toposort_all_total. Qed.
+Print Assumptions C19_gen_toposort_all_total.
+
+Theorem C19_gen_toposort_all_keyerror :
+  forall (ord : list node -> list node) (g : graph),
+       NoDup (map fst g) ->
+       (exists u v : node, edge g u v /\ ~ In v (map fst g)) ->
+       G.gen_toposort_all Nat.eqb ord g = G.Err G.KeyError.
+Proof. exact @gen_toposort_all_keyerror. Qed.
+Print Assumptions C19_gen_toposort_all_keyerror.
+
+Theorem C19_gen_toposort_keyerror :
+  forall g : graph,
+       NoDup (map fst g) ->
+       (exists u v : node, edge g u v /\ ~ In v (map fst g)) ->
+       G.gen_toposort Nat.eqb g = G.Err G.KeyError.
+Proof. exact @gen_toposort_keyerror. Qed.
+Print Assumptions C19_gen_toposort_keyerror.
+
+Theorem C19_gen_toposort_all_spec :
+  forall (ord : list node -> list node) (g : graph),
+       wf g ->
+       set_order ord ->
+       exists R : list (list nat),
+         G.gen_toposort_all Nat.eqb ord g = G.Ok R /\
+         NoDup R /\ (forall l : list nat, In l R <-> topo g l).
+Proof. exact @gen_toposort_all_spec. Qed.
+Print Assumptions C19_gen_toposort_all_spec.
+
+Theorem C19_gen_toposort_all_perm :
+  forall (ord ord' : list node -> list node) (g : graph),
+       wf g ->
+       set_order ord ->
+       set_order ord' ->
+       exists R R' : list (list nat),
+         G.gen_toposort_all Nat.eqb ord g = G.Ok R /\
+         G.gen_toposort_all Nat.eqb ord' g = G.Ok R' /\ Permutation R R'.
+Proof. exact @gen_toposort_all_perm. Qed.
+Print Assumptions C19_gen_toposort_all_perm.
+
+Theorem C19_gen_toposort_all_list_order :
+  forall g : graph,
+       toposort_all g <> TOutOfFuel ->
+       cres (G.gen_toposort_all Nat.eqb (fun s : list nat => s) g) = toposort_all g.
+Proof. exact @gen_toposort_all_list_order. Qed.
+Print Assumptions C19_gen_toposort_all_list_order.
+
+Example C19_gen_toposort_example := gen_toposort_example.
